@@ -123,9 +123,14 @@ pub fn check_case(ast: &OpeningHoursExpression, oh: &Oh, hol: &HolSpec, days: &[
         check_day(ast, oh, hol, *d, st)?;
     }
     let all_comments: BTreeSet<&str> = ast.rules.iter().flat_map(|r| r.comments.iter().map(|c| &**c)).collect();
-    for s in starts {
+    for (si, s) in starts.iter().enumerate() {
         let to = *s + Duration::days(9);
         check_first_interval(oh, *s, to, st)?;
+        // the same under an interval-size bound: state and comments of the interval containing the
+        // start are those of the schedule period, whether or not the interval is cut by the bound
+        let bound = [Duration::days(1), Duration::days(30), Duration::days(366), Duration::hours(36)][si % 4];
+        let bounded = oh.clone().with_context(hol.context().approx_bound_interval_size(bound));
+        check_first_interval(&bounded, *s, if si % 2 == 0 { to } else { stream::date_end() }, st).map_err(|e| format!("with an interval-size bound of {} h: {e}", bound.num_hours()))?;
         // all intervals of a short window: comments sorted, unique, from the expression, empty outside range
         let stream = stream::collect(oh, *s, to, 200).map_err(|p| format!("iter_range panicked: {p}"))?;
         for iv in &stream.intervals {
